@@ -5,10 +5,12 @@ package main
 
 import (
 	"bufio"
+	"bytes"
 	"encoding/json"
 	"flag"
 	"fmt"
 	"os"
+	"os/exec"
 	"runtime/debug"
 	"strings"
 
@@ -97,6 +99,50 @@ func main() {
 			l.Detail = o.Violation.Detail
 		}
 		emit(l)
+	case "shrink":
+		// Minimises a replay whose failure kills the process (race report, fatal error):
+		// every candidate is executed in a fresh sub-process of this binary.
+		rp, err := kernel.ReadReplay(*file)
+		if err != nil {
+			fatal(err)
+		}
+		eng := mustEngine(rp.Engine)
+		tmp := *file + ".cand"
+		defer os.Remove(tmp)
+		budget := 60
+		test := func(cand json.RawMessage) bool {
+			if budget <= 0 {
+				return false
+			}
+			budget--
+			c2 := *rp
+			c2.Case = cand
+			b, _ := json.Marshal(&c2)
+			if os.WriteFile(tmp, b, 0o644) != nil {
+				return false
+			}
+			cmd := exec.Command(os.Args[0], "replay", "-file", tmp)
+			var errb bytes.Buffer
+			cmd.Stderr = &errb
+			outb, err := cmd.Output()
+			if err == nil {
+				var l line
+				for _, ln := range bytes.Split(outb, []byte("\n")) {
+					if json.Unmarshal(ln, &l) == nil && l.T == "replay" {
+						return l.Class == rp.Class
+					}
+				}
+				return false
+			}
+			class, _ := kernel.FatalClass(errb.String())
+			return class == rp.Class
+		}
+		min := eng.Shrink(rp.Case, rp.Class, test)
+		rp.Case, rp.Minimal = min, true
+		b, _ := json.MarshalIndent(rp, "", " ")
+		if err := os.WriteFile(*file, b, 0o644); err != nil {
+			fatal(err)
+		}
 	default:
 		fatal("unknown command", cmd)
 	}
